@@ -37,7 +37,7 @@ func c17Gen(rt *rapid.T) e4Case {
 			if connected && (r.Extra == 200 || r.Extra == 20) && hn < 100 {
 				// the registration is held up inside Handle while the connection is being replaced; afterwards a
 				// message arrives on the new connection
-				c.Steps = append(c.Steps, e4Step{Kind: "settle"}, e4Step{Kind: "handleStalled", Extra: hn, ID: 300 + 900*r.QoS, Retain: r.Extra == 20},
+				c.Steps = append(c.Steps, e4Step{Kind: "settle"}, e4Step{Kind: "handleStalled", Extra: hn, ID: 300 + 900*r.QoS, Retain: r.Extra == 20 && r.QoS != 2, Topic: map[bool]string{true: "stats"}[r.Extra == 20 && r.QoS == 2]},
 					e4Step{Kind: "settle"}, e4Step{Kind: "inject", QoS: r.QoS})
 			} else {
 				c.Steps = append(c.Steps, e4Step{Kind: "handle", Extra: hn})
